@@ -12,7 +12,10 @@ PROP_FILE = "Properties/C06.v"
 TRUSTED = [
     "translator/c06.py (Processor.__deepcopy__ / ModelGroup.__deepcopy__ field modes, copy-before-set shape of "
     "create_new_processor, Processor.replace, update_processor, build_processors, ModelFittingDataTree.__init__, "
-    "which processor the run sites hand to run_pipeline, absence of other custom copy hooks; fails closed)",
+    "which processor the run sites hand to run_pipeline, absence of other custom copy hooks; for the copy sites and the "
+    "two observation run sites whether anything derived from the caller's processor is written to (taint analysis over "
+    "attribute/item stores, del, setattr, mutating method calls, run_pipeline on the caller's object) and whether every "
+    "value handed to .set is deep-copied by the site; fails closed)",
     "correspondence harness: harness/props/c06.py generators, harness/drivers/c06.py (canonical numbering of real "
     "object graphs, value snapshots, standalone oracle built from the JSON spec without Processor.set)",
     "modelled, not verified: CPython copy.deepcopy of plain objects = relocation of the reachable sub-graph (checked "
@@ -664,6 +667,11 @@ def run(ctx: Ctx):
         "immutable values are payload, not heap objects; the readout handed to run_pipeline is only read "
         "(np.array(times) copies) - checked by the snapshot of the caller's readout",
         "sequential mode under dask with >= 2 parameters is not generated here (finding F12 belongs to C05/C07)",
+        "the buckets, the scene and the readout clock of a copy are not compared with the caller's (exposure.run_pipeline "
+        "resets them before the first step of every run); caches (_numbytes), the running model's name and debug data "
+        "(_intermediate) are not contents",
+        "calibration candidates are arbitrary binary64 values: fitness / champion frames are compared with the standalone "
+        "oracle within 1e-9 relative (oracle side only); everything else uses dyadic inputs and exact comparison",
     ]
     gen = {}
     try:
@@ -679,12 +687,17 @@ def run(ctx: Ctx):
     graphs, behs, mism = correspondence(ctx, cases)
     distinct = {json.dumps(c, sort_keys=True) for c, _ in graphs + behs if nontrivial(c)}
     ctx.cov["distinct_nontrivial"] = len(distinct)
-    ctx.cov["rule"] = ("every generated pipeline contains verif_probes.stateful (memory on the detector) and most "
-                       "contain verif_probes.mutates_args (appends to its own list argument); graph cases: one per "
-                       "(copy site, spec, parameter set); behaviour cases: 1-4 successive observation calls (product / "
-                       "sequential, loop / dask-synchronous, reversed and thinned value orders, a failing run in the "
-                       "middle) or 4-6 fitness() calls with a failing candidate in the middle and the first candidate "
-                       "repeated last; non-trivial = sets >= 1 parameter (graph) / makes >= 2 runs (behaviour)")
+    ctx.cov["rule"] = ("every generated pipeline contains a model that keeps memory on the detector (ad-hoc attribute, "
+                       "the detector's own _memory dict, trapped charge of a persistence object) and most contain a model "
+                       "that modifies its own argument in place (list append, nested lists / tuple of lists / dict / "
+                       "ndarray element-wise); the caller's objects carry a history in most cases (0-2 earlier exposures); "
+                       "graph cases: one per (copy site, spec, parameter set); sitefail cases: a copy site asked to apply a "
+                       "rejected value; behaviour cases: 1-4 successive observation calls (product / sequential, loop / "
+                       "dask synchronous / dask threads, reversed and thinned value orders, a raising model or a rejected "
+                       "value at any position, unknown keys), 4-8 fitness() calls (failing or rejected candidate in the "
+                       "middle, candidates repeated in a row and at the end, 1-3 processors per candidate, list-valued "
+                       "variables), real calibrations on 1-3 islands; non-trivial = sets >= 1 parameter (graph) / makes "
+                       ">= 2 runs (behaviour)")
     ctx.cov["traces_validated_against_impl"] = len(graphs) + len(behs)
     ctx.cov["disagreements_checked"] = len(mism)
     for c, o in graphs[:2]:
@@ -757,20 +770,32 @@ def replay(ctx: Ctx, rp: dict) -> int:
 META = dict(
     level_text=(
         "Coq theorems over a store model (heap = list of objects, copy = relocation of the reachable sub-graph driven "
-        "by the copy policy regenerated from Processor.__deepcopy__, ModelGroup.__deepcopy__ and nine copy/run sites on "
+        "by the copy policy regenerated from Processor.__deepcopy__, ModelGroup.__deepcopy__ and the copy/run sites on "
         "every run): the copy is a fresh isomorphic block; for every run function that changes only what it reaches "
-        "and for EVERY sequence of runs the caller's whole heap is unchanged; a run's result does not depend on the runs "
-        "before it; with one aliasing field or an in-place site the frame statement is refuted on a concrete witness. "
+        "and for EVERY sequence of runs the caller's whole heap is unchanged; the same on the EXCEPTIONAL path - every "
+        "history of calls whose runs may be rejected by a setter or raise in a model, aborted at the first failure (loop) "
+        "or not (dask), followed by further calls - and the outcome of a run (result or failure) does not depend on that "
+        "history; parameter values that are references to the caller's objects keep the frame because the sites "
+        "deep-copy the value (regenerated flag; statement false without the copy); a site that writes to the caller "
+        "keeps the frame iff it restores in a finally clause (both directions proved on the model); with one aliasing "
+        "field or an in-place site the frame statement is refuted on a concrete witness. "
         "That pyxel's real object graphs and CPython's deepcopy behave like the model is established by correspondence "
         "(testing): Coq recomputes the copied block for every generated real processor graph and compares it with what "
         "deepcopy / replace / create_new_processor / update_processor / build_processors / fitting init produced, and "
-        "judges value snapshots of the caller's objects and every observation / dask / fitness run against an "
-        "independently built standalone exposure."),
+        "judges value snapshots of the caller's objects (which carry a history: detector memory, trapped charge, bucket "
+        "contents of earlier exposures) and every observation / dask (synchronous and threaded) / fitness run, every "
+        "candidate evaluated by a real multi-island calibration and every copy site asked to apply a rejected value "
+        "against an independently built standalone exposure."),
     level_note=(
-        "Trusted: Coq kernel + vm_compute; translator/c06.py; the driver's canonical numbering and snapshots; Section "
-        "hypotheses on runs (frame, address independence); global state outside the store (RNG, caches) is C04/C20; "
-        "schedulers other than synchronous are C07. Abstracted: the memo dropped by ModelGroup.__deepcopy__, values of "
-        "immutable fields, numpy views (memory sharing is measured by the harness, not modelled)."),
-    technique="Coq proof over a heap/copy-policy model + regenerated copy-site table + in-Coq graph/snapshot correspondence",
+        "Trusted: Coq kernel + vm_compute; translator/c06.py (field modes, copy-before-set shape, which processor is run, "
+        "writes to the caller's objects by taint analysis, value deep-copied before set, no other copy/pickle hook); "
+        "the driver's canonical numbering and snapshots; Section hypotheses on runs (frame, address independence, "
+        "Processor.set stores payload or new objects); global state outside the store (RNG, caches) is C04/C20; "
+        "result equality under parallel schedulers is C07 (here: isolation of the caller and of the runs under the "
+        "threaded scheduler). Abstracted: the memo dropped by ModelGroup.__deepcopy__, values of immutable fields, "
+        "numpy views (memory sharing is measured by the harness, not modelled). Calibration candidates are arbitrary "
+        "binary64 values: their fitness is compared with the standalone oracle within 1e-9 relative (oracle side only)."),
+    technique="Coq proof over a heap/copy-policy model with failing runs + regenerated copy-site tables (mode, effect, "
+              "value copy) + in-Coq graph/snapshot correspondence",
     design_ref="DESIGN.md section 6, C06",
 )
